@@ -26,4 +26,22 @@ alarms="$(printf '%s\n' "${props[@]}" | xargs -P 4 -I{} bash -c "one {} $wt $tie
 n=$(echo -n "$alarms" | grep -c ALARM)
 echo "benign $id: repo suite with patch=$suite, checks run=${#props[@]} tier=$tier, alarms=$n"
 [ -n "$alarms" ] && echo "$alarms"
+if [ -n "${BENSRC:-}" ]; then
+  # file it under /verif/benign/<id>/ (patch, demonstration, meta + what the lead saw)
+  mkdir -p "/verif/benign/$id"; cp "$src/patch.diff" "/verif/benign/$id/patch.diff"
+  rm -rf "/verif/benign/$id/demo"; [ -d "$src/demo" ] && cp -r "$src/demo" "/verif/benign/$id/demo"
+  python3 - "$src/meta.json" "/verif/benign/$id/meta.json" "$suite" "$n" "$tier" "${#props[@]}" "$(git -C /repo log --format=%h -n1)" "$alarms" <<'PY'
+import json,sys
+src,dst,suite,n,tier,nprops,head,alarms=sys.argv[1:]
+try: m=json.load(open(src))
+except Exception: m={}
+try:
+    old=json.load(open(dst))
+    if 'lead_note' in old: m['lead_note']=old['lead_note']
+except Exception: pass
+m['confirmed_by_lead']={"repo_head":head,"repo_suite_with_patch":suite,"checks_run":int(nprops),"tier":tier,"alarms":int(n),"alarm_lines":[l[:300] for l in alarms.splitlines() if l.strip()],
+  "ran":"tools/benign.sh: scratch worktree of /repo HEAD, git apply patch.diff, go test ./..., VERIF_REPO=<worktree> ./check Cnn "+tier+" for every property"}
+json.dump(m,open(dst,'w'),indent=1,ensure_ascii=False)
+PY
+fi
 exit 0
